@@ -17,7 +17,8 @@ RULE = ("branch maps of 0-30 branches (+ hand-built corners: alias to a dangling
         "prefix-chain names over an adversarial alphabet; all six target kinds + "
         "dangling; alias targets: existing / missing / self / chains / 0-1000 arbitrary bytes incl. NUL, ':' and digits; "
         "each map in two insertion orders; ignore_unresolved True / False / left at its default, on the Snapshot and on the deprecated "
-        "dict form (same dict object used several times and compared afterwards, OrderedDict, dict without 'id', dict with a stale id); "
+        "dict form (same dict object used several times and compared afterwards, OrderedDict, dict without 'id', dict with a stale id; "
+        "warning filter 'always' or 'ignore'); "
         "constructor, from_dict (twice on one dict), evolve(branches=...), a second snapshot from the caller's working dict; "
         "a GIVEN id (own / constant / id of the previous case, each first seen on another object): compute_hash, formatting, check(); "
         "after every construction the branch map is also given as defaultdict / __missing__ subclass / OrderedDict / copy()-overriding "
@@ -27,10 +28,14 @@ RULE = ("branch maps of 0-30 branches (+ hand-built corners: alias to a dangling
         "manifest re-read; the dict returned by to_dict() is mutated; branches.copy_pop (present / absent key) and dict() views; "
         "a target / name / target type equal to a valid one but of another type (bytearray changed afterwards, bytes subclass, "
         "memoryview, str, enum value as str, release enum): refused, or the snapshot of the plain values; invalid "
-        "branches (non-alias target not 20 bytes) included; the wide steps run on every case of the thorough tier and on a third "
+        "branches (non-alias target not 20 bytes) included; the wide steps run on every case of the thorough tier and on a quarter "
         "of the quick tier's (maps of at most 13 branches); non-trivial = >=2 branches incl. an alias or a dangling one")
 TRUSTED = ["Python sorted() on (name, branch) tuples with distinct names = byte order of names; '%d' formatting; dict semantics",
-           "lib/Sha1.v as an instance of the hash oracle (validated against hashlib on every case)"]
+           "lib/Sha1.v as an instance of the hash oracle (validated against hashlib on every case)",
+           "harness/c05.py spec_manifest (the documented manifest, written from the property text) is the reference for the routes the "
+           "Coq model does not speak about: object identity and aliasing of containers, argument types, the deprecated dict form, "
+           "given ids, evolve, copy_pop; attrs-generated __init__ / evolve / validate and the collections.abc.Mapping mixin methods "
+           "(__contains__, get, __eq__) behind ImmutableDict"]
 ASSUMPTIONS = ["branch names contain no NUL byte for the decode/injectivity theorems (the property's domain)"]
 
 KINDS = ["content", "directory", "revision", "release", "snapshot", "alias"]
@@ -90,7 +95,7 @@ def gen(rng, tier):
         perm = list(range(len(b)))
         rng.shuffle(perm)
         cases.append({"branches": b, "perm": perm, "ignore": rng.random() < 0.5})
-        if tier == "quick" and (k % 3 or n > 13):
+        if tier == "quick" and (rng.random() < 0.75 or n > 13):
             cases[-1]["wide"] = False
     cases += corner_cases(rng, tier)
     if tier == "thorough":
@@ -268,7 +273,10 @@ def impl(c):
                 except ValueError as e:
                     f.append("unresolved:" + repr(sorted((a.hex(), b.hex()) for a, b in e.args[1])))
                 f.append(len(s2.branches))
-                # ... and the caller goes on using the object it gave
+                # ... and the caller goes on using the object it gave (quick tier, big maps: two shapes only)
+                if not c.get("wide", True) and nm not in ("ordered", "idict"):
+                    facts.append([nm, f])
+                    continue
                 if isinstance(mine, list):
                     mine.append((b"refs/heads/added-later", None))
                     del mine[0]
@@ -407,7 +415,11 @@ def _derived(c, s, d):
     e = s.evolve(branches=d)
     n = Snapshot(branches=d)
     e2 = s.evolve(branches=dict(s.branches.items()))
-    return {"branches": tri, "evolve": _state(e), "second": _state(n), "evolve_same": e2.id.hex(), "first": _state(s)}
+    try:
+        e3 = _state(s.evolve(branches=d, id=b"\x09" * 20))      # evolve computes the id itself: refused today
+    except Exception:
+        e3 = "refused"
+    return {"branches": tri, "evolve": _state(e), "second": _state(n), "evolve_same": e2.id.hex(), "evolve_with_id": e3, "first": _state(s)}
 
 
 def _handed_out(c, s, _d):
@@ -453,10 +465,12 @@ def _odd(c, s, _d):
     b = c["branches"]
     if not b:
         return out
-    k = len(b) // 2
+    mid = len(b) // 2
+    live = [i for i in list(range(mid, len(b))) + list(range(mid)) if b[i][1] is not None]
     for what in ("bytearray", "subclass", "memoryview", "str", "tt_str", "tt_release", "name_subclass", "name_str"):
         d = {}
         mut = None
+        k = mid if what.startswith("name") or not live else live[0]
         try:
             for i, (n, kd, t) in enumerate(b):
                 nm = bytes.fromhex(n)
@@ -564,7 +578,7 @@ def oracle(c, ires, mres):
         if len(f) < 5 or f[0] != ires["id"] or f[1] != ires["id"] or f[2] != len(b) or f[4] != len(b) or (want_last is not None and f[3] != want_last):
             return ("a snapshot whose branches are given as a %s differs from the one built from a plain dict "
                     "(id, compute_hash, number of branches before/after formatting, manifest or unresolved report): %s" % (nm, str(f)[:160]))
-        if f[5:] != [ires["id"], ires["id"], len(b)]:
+        if f[5:] and f[5:] != [ires["id"], ires["id"], len(b)]:
             return ("a snapshot whose branches were given as a %s moved when the caller went on using the object it had given "
                     "(id, compute_hash, number of branches re-read): %s" % (nm, str(f[5:])[:160]))
     if ires["after_caller_mutation"] != [ires["id"], ires["id"], ires["manifest_ignore"], len(b)]:
@@ -654,6 +668,8 @@ def _oracle_wide(b, ires, want_unres, ignore):
         st = _state_of(d["branches"])
         if d["evolve"] != st:
             return "evolve(branches=...) does not give the snapshot of the new branch map: " + str(d["evolve"])[:160]
+        if d.get("evolve_with_id", "refused") not in ("refused", st):
+            return "evolve(branches=..., id=...) was accepted and the result does not carry the id of its branch map: " + str(d["evolve_with_id"])[:160]
         if d["second"] != st:
             return "a second snapshot built from the caller's working dict is not the snapshot of that dict: " + str(d["second"])[:160]
         if d["evolve_same"] != first[0] or d["first"] != first:
@@ -712,6 +728,9 @@ def shrink(c):
 
 # functions of /repo whose executed-line coverage by this run is reported in the evidence
 ANCHORS = [('swh/model/git_objects.py', 'snapshot_git_object'),
+           ('swh/model/model.py', 'BaseHashableModel.evolve'),
+           ('swh/model/model.py', 'BaseHashableModel.check'),
+           ('swh/model/model.py', 'SnapshotBranch.from_dict'),
            ('swh/model/model.py', 'SnapshotBranch.check_target'),
            ('swh/model/model.py', 'Snapshot._compute_hash_from_attributes'),
            ('swh/model/model.py', 'Snapshot.from_dict')]
